@@ -660,7 +660,14 @@ func evalC12(w *h.Worker, keys []string, offsets []int64, mode string, qs []stri
 			if mode == "get" {
 				v, found = si.Get(q)
 			} else {
+				// a caller may try the exact lookup first: whatever Get answers for a
+				// key of a sparse index, the RangeGet that follows must be right
+				si.Get(q)
 				v, found = si.RangeGet(q)
+				if v2, f2 := si.RangeGet(q); v2 != v || f2 != found {
+					viol = &h.Viol{Sig: "index-rangeget-not-repeatable", Msg: fmt.Sprintf("RangeGet(%s) = (%q,%v), asked again at once = (%q,%v)", briefQ(q), v, found, v2, f2)}
+					return
+				}
 			}
 			w.Trans++
 			if present[q] {
@@ -730,6 +737,7 @@ func evalC12Reload(w *h.Worker, prior, keys []string, bsz int, form string, qs [
 				return
 			}
 			siA := &index.SlimIndex{SlimTrie: *loader, DataReader: rrA}
+			statA, strA := fmt.Sprintf("%+v", *siA.Stat()), siA.String()
 			var err error
 			switch form {
 			case "loader":
@@ -746,6 +754,10 @@ func evalC12Reload(w *h.Worker, prior, keys []string, bsz int, form string, qs [
 			}
 			siB := &index.SlimIndex{SlimTrie: *loader, DataReader: rrB}
 			w.Trans += 2
+			if st2, str2 := fmt.Sprintf("%+v", *siA.Stat()), siA.String(); st2 != statA || str2 != strA {
+				viol = &h.Viol{Sig: "index-reload", Msg: fmt.Sprintf("one loader, two indexes (%s): Stat / String of the index made BEFORE the loader opened the next stream changed: %s -> %s", form, statA, st2)}
+				return
+			}
 			for _, x := range []struct {
 				si *index.SlimIndex
 				ks []string
